@@ -115,6 +115,9 @@ def extract_tables():
     """Regenerate Fsel/Gen/Tables.lean from /repo. Returns (ok, message)."""
     with _lock("tables"):
         rc, out = run([sys.executable, os.path.join(VERIF, "tools", "extract_tables.py")])
+        if rc == 0:
+            rc2, out2 = run([sys.executable, os.path.join(VERIF, "tools", "extract_docs.py")])
+            rc, out = rc2, out + out2
     return rc == 0, out.strip()
 
 
